@@ -329,7 +329,11 @@ def gen_blocking(seed, ncases):
             # timeout 0 blocks for ever unless something is (or becomes) available: allow a few
             # (they exercise the watchdog path), mostly make sure it is served
             if timeout == 0 and not will_serve and r.random() < 0.8:
-                c.bg([b"rpush", ks[0], b"late"], 150 + 100 * r.randrange(0, 5) + 37)
+                late = 150 + 100 * r.randrange(0, 5) + 37
+                while late in used:          # two commands at the same instant have no defined order
+                    late += 1
+                used.add(late)
+                c.bg([b"rpush", ks[0], b"late"], late)
             c.step([pick(r, [b"blpop", b"brpop"])] + ks + [str(timeout).encode()])
             if r.random() < 0.5:
                 c.step([b"lrange", pick(r, [b"k", b"j"]), b"0", b"-1"])
